@@ -26,14 +26,14 @@ MAX_PATHS = 20000
 F = Fraction
 
 MUTATORS = ["knot_insert", "knot_insert2", "knot_remove", "knot_remove_real", "knot_clean", "degree_increase", "degree_decrease",
-            "degree_setter", "clean", "knotvector_setter", "ctrlpoints_setter", "weights_setter", "update", "apply", "apply_bad", "insert_typeerror",
+            "degree_setter", "clean", "knotvector_setter", "knotvector_inplace", "ctrlpoints_setter", "weights_setter", "update", "apply", "apply_bad", "insert_typeerror",
             "fit_points_bad", "fit_curve_bad", "fit_points", "fit_curve"]
 PURE = ["eval", "arith", "eq", "split", "fraction", "copy", "derivate", "integrate", "fit_source", "shared"]
 
 META = dict(
     bounds=dict(
         quick="curves on 6 concrete vectors (degree 1..3, 0-2 interior knots incl. repeated), polynomial and rational (concrete weights); "
-              "19 mutating operations (valid, invalid and borderline arguments: symbolic nodes anywhere on the real line, wrong lengths, "
+              "20 mutating operations (valid, invalid and borderline arguments: symbolic nodes anywhere on the real line, wrong lengths, "
               "wrong shapes, other intervals) and 10 non-mutating ones; one operation per run from an arbitrary state",
         thorough="12 vectors; additionally every ordered pair of mutators applied in sequence",
     ),
@@ -67,7 +67,7 @@ def configs(tier, seed):
         for op in MUTATORS + PURE:
             for rat in (False, True):
                 if rat and (op in ("fit_points", "fit_curve", "fit_curve_bad", "fit_source", "knot_remove_real", "degree_decrease", "clean",
-                                   "knot_clean", "update", "derivate", "integrate", "knotvector_setter") or (k + len(op) + seed) % 2
+                                   "knot_clean", "update", "derivate", "integrate", "knotvector_setter", "knotvector_inplace") or (k + len(op) + seed) % 2
                             or (op == "shared" and sum(mults) - p - 1 > 3)):
                     continue
                 cfgs.append(dict(name=f"vec{k} {op}{' rat' if rat else ''}", kind="one", op=op, rat=rat, **base))
@@ -156,6 +156,11 @@ def run_op(env, c, op, kv, tag, concrete=False):
                 c.knotvector = [x + 1 for x in kv.U]                             # other interval: must raise
             else:
                 c.knotvector = [lo] * kv.p + [hi] * kv.p if kv.p > 0 else [lo, hi]  # coarser: raises unless representable
+        elif op == "knotvector_inplace":
+            # the statement `curve.knotvector += [x]`: getter, KnotVector.__iadd__ on the object the getter returned, setter
+            x = env.real(f"{tag}x")
+            separated(env, [x], vals)
+            c.knotvector += [x]
         elif op == "ctrlpoints_setter":
             which = env.real(f"{tag}w", nice=(0, 3))
             env.assume((which == 0) | (which == 1) | (which == 2) | (which == 3))
